@@ -27,8 +27,8 @@ import (
 	"k8s.io/apimachinery/pkg/types"
 	"pgregory.net/rapid"
 
-	slov1alpha1 "github.com/koordinator-sh/koordinator/apis/slo/v1alpha1"
 	runtimeapi "github.com/koordinator-sh/koordinator/apis/runtime/v1alpha1"
+	slov1alpha1 "github.com/koordinator-sh/koordinator/apis/slo/v1alpha1"
 	"github.com/koordinator-sh/koordinator/pkg/koordlet/runtimehooks/protocol"
 	"github.com/koordinator-sh/koordinator/pkg/koordlet/statesinformer"
 	"github.com/koordinator-sh/koordinator/pkg/verifkit/vk"
@@ -82,7 +82,9 @@ type c14Cfg struct {
 	apply   func(p *plugin)
 }
 
-func (g *c14Cfg) scaling() bool { return g.Enabled && g.Ratio != nil && g.Ratio.Cmp(big.NewRat(1, 1)) > 0 }
+func (g *c14Cfg) scaling() bool {
+	return g.Enabled && g.Ratio != nil && g.Ratio.Cmp(big.NewRat(1, 1)) > 0
+}
 
 type c14Out struct {
 	S, Q, M *int64
@@ -575,8 +577,8 @@ func c14RunProxy(p *plugin, pod *c14Pod) (c14Out, []c14Out) {
 	for i := range pod.Ctrs {
 		cc := &protocol.ContainerContext{}
 		cc.FromProxy(&runtimeapi.ContainerResourceHookRequest{PodMeta: meta,
-			ContainerMeta:   &runtimeapi.ContainerMetadata{Name: pod.Ctrs[i].Name, Id: pod.Ctrs[i].Name + "0123456789abcdef"},
-			PodAnnotations:  c14CopyMap(pod.fullAnnos), PodLabels: c14CopyMap(pod.Labels), PodCgroupParent: c14PodCgroup})
+			ContainerMeta:  &runtimeapi.ContainerMetadata{Name: pod.Ctrs[i].Name, Id: pod.Ctrs[i].Name + "0123456789abcdef"},
+			PodAnnotations: c14CopyMap(pod.fullAnnos), PodLabels: c14CopyMap(pod.Labels), PodCgroupParent: c14PodCgroup})
 		err := p.SetContainerResources(cc)
 		co := c14CtrOut(cc)
 		co.Err = err
@@ -693,13 +695,16 @@ func TestVerifC14Hooks(t *testing.T) {
 				given = append(given, i)
 			}
 		}
-		anyTouched := false
+		anyTouched, anyErr := false, false
 		for _, r := range results {
 			anyTouched = anyTouched || r.Pod.Touched
+			anyErr = anyErr || r.Pod.Err != nil
 			for _, co := range r.Ctrs {
 				anyTouched = anyTouched || co.Touched
+				anyErr = anyErr || co.Err != nil
 			}
 		}
+		c.ClassIf(anyErr, "hook-returned-error(not asserted)")
 
 		// ----- classes
 		subMin, unlimCPU, unlimMem, initDeclared, nothingDeclared, noID, sharesMax, sharesMin := false, false, false, false, false, false, false, false
